@@ -4,6 +4,9 @@ Model A: Flatland/C18.lean (+ Flatland/C04.lean for whole-element set).  Spec B:
 -/
 import Proofs.Lemmas.C18Date
 import Proofs.C04
+import Proofs.C18Multi
+import Proofs.C18Flat
+import Proofs.C18Joined
 import Flatland.Spec.C18
 import Flatland.Generated.C04Tables
 namespace Flatland.C18.Proofs
@@ -412,8 +415,11 @@ theorem C18_joined_resplit_witness :
 
 /-! ### JoinedString.value, MultiValue.u/value -/
 
-/-- **joined_value** — in every state the value (and `.u`) is the separator-join of the members' texts -/
-theorem joined_value (c : JoinedCfg) (s : JoinedState) : joinedValue c s = joinStr c.sep (s.map (·.u)) := rfl
+/-- **joined_value** — in every state the value (and `.u`) of the scalar-member model is the
+    separator-join (core `List.intercalate`) of the members' texts; the member-type-generic statement
+    along histories is `Flatland.C18.Joined.Proofs.joined_value_history` -/
+theorem joined_value (c : JoinedCfg) (s : JoinedState) : joinedValue c s = sepJoin c.sep (s.map (·.u)) :=
+  Flatland.C18.Joined.Proofs.joinStr_eq_sepJoin _ _
 
 /-- **multivalue_first** — the scalar view of a MultiValue is its first member, `('', None)` when empty -/
 theorem multivalue_first (s : MultiState) :
